@@ -125,3 +125,164 @@ def tasks(tier):
     import itertools
     sl = [(k,) for k in range(10)] + (list(itertools.combinations(range(10), 2)) if tier == 'thorough' else [(0, 1), (0, 9), (4, 5), (8, 9)])
     return [('validate', t_validate), ('max_leverage', t_max_leverage)] + [('entries' + '-'.join(map(str, x)), mk_entries(x)) for x in sl]
+
+
+# ---------------------------------------------------------------- C13.d: every write path validates exactly what it leaves behind
+from specs.C12 import leaves, pretty, find_accounts, WS_OPAQUE
+WORLD = ('marginfi', 'typecrate', 'drift')
+
+
+def struct_ids(v, pth, out):
+    if isinstance(v, StructV):
+        out[pth] = v.name
+        for k, x in v.fields.items():
+            if isinstance(k, int): struct_ids(x, pth + (f'[{k}]' if v.ty.strip().startswith('[') else f'.{k}'), out)
+
+
+def _snapshot(eng, ref):
+    v = eng.deref_val(ref); lv = []
+    leaves(eng, v, '', lv)
+    snap = {p: ev(x) for p, x in lv}
+    ids = {}; struct_ids(v, '', ids)
+    snap['__ids'] = ids
+    return v.name, snap
+
+
+def sum_val_emode(eng, st, callee, args):
+    en, es = _snapshot(eng, args[0]); cn, cs = _snapshot(eng, args[1])
+    d = z3.Int(eng.ex.fresh_name('val_emode_disc')); eng.ex.assumptions.append(z3.And(d >= 0, d <= 1))
+    st.events.append(('val_emode', en, cn, es, cs, d))
+    return EnumV('Result', d, {0: {0: StructV('()', 'unit', {}, lazy=False)}, 1: {0: Opaque('E', 'err')}})
+
+
+def sum_val_cfg(eng, st, callee, args):
+    cn, cs = _snapshot(eng, args[0])
+    d = z3.Int(eng.ex.fresh_name('val_cfg_disc')); eng.ex.assumptions.append(z3.And(d >= 0, d <= 1))
+    st.events.append(('val_cfg', cn, cs, d))
+    return EnumV('Result', d, {0: {0: StructV('()', 'unit', {}, lazy=False)}, 1: {0: Opaque('E', 'err')}})
+
+
+def sum_val_curve(eng, st, callee, args):
+    cn, cs = _snapshot(eng, args[0])
+    d = z3.Int(eng.ex.fresh_name('val_curve_disc')); eng.ex.assumptions.append(z3.And(d >= 0, d <= 1))
+    st.events.append(('val_curve', cn, cs, d))
+    return EnumV('Result', d, {0: {0: StructV('()', 'unit', {}, lazy=False)}, 1: {0: Opaque('E', 'err')}})
+
+
+WRITE_PATHS = {
+    'configure_bank': r'configure_bank::lending_pool_configure_bank$',
+    'configure_bank_emode': r'config_bank_emode::lending_pool_configure_bank_emode$',
+    'clone_emode': r'emode_clone::lending_pool_clone_emode$',
+    'configure_bank_interest_only': r'configure_bank_lite::lending_pool_configure_bank_interest_only$',
+    'configure_bank_limits_only': r'configure_bank_lite::lending_pool_configure_bank_limits_only$',
+}
+BANK_CFG = STRUCTS['Bank'].index('config'); BANK_EMODE = STRUCTS['Bank'].index('emode')
+CFG_IRC = STRUCTS['BankConfig'].index('interest_rate_config')
+W_IDX = [STRUCTS['BankConfig'].index(n) for n in ('asset_weight_init', 'asset_weight_maint', 'liability_weight_init', 'liability_weight_maint', 'risk_tier', 'oracle_max_age')]
+LW_IDX = [STRUCTS['BankConfig'].index(n) for n in ('liability_weight_init', 'liability_weight_maint')]
+
+
+def mk_write_path(name):
+    def task(world):
+        eng = world.engine(opaque=[x for x in WS_OPAQUE if 'validate' not in x], merge=True, max_paths=100000)
+        eng.summaries = [(re.compile(r'validate_entries_with_liability_weights$'), sum_val_emode),
+                         (re.compile(r'bank_config::<impl[^>]*>::validate$|BankConfigImpl>::validate$'), sum_val_cfg),
+                         (re.compile(r'InterestRateConfigImpl>::validate$|interest_rate::<impl[^>]*>::validate$'), sum_val_curve)]
+        f = world.fn(WRITE_PATHS[name])
+        args = [eng.ex.fresh(ty, 'a%d' % i) for i, (n, ty) in enumerate(f.params)]
+        res = eng.run_fn(f, args)
+        ob = Ob('C13.d.' + name, f'{name}: whenever weights, curve or e-mode entries of a bank may change, the matching validator ran on exactly the values left behind (same bank, error propagated)',
+                [f.name], 'handler mode, bank-mutating callees inlined, validators summarised as snapshotting events; every accepting path', role='unvalidated-write')
+        ob.paths = len(res)
+        for r, okc in ok_paths(res):
+            if ob.witness(eng, r, [okc]) is False: continue
+            accts = {}
+            for root in r['roots']: accts.update(find_accounts(eng, root))
+            E = list(flat_events(r['events']))
+            for b, sv in accts.items():
+                if 'Bank' not in sv.ty: continue
+                lv = []; leaves(eng, sv, '', lv)
+                final = {p: ev(x) for p, x in lv}
+                replaced = []          # nested structs assigned wholesale from somewhere else (their leaves are not ours)
+                def walk(v, pth):
+                    if isinstance(v, StructV):
+                        if pth and v.lazy and v.name != b + pth and not v.name.startswith(b + pth):
+                            replaced.append(pth); return
+                        for k, x in v.fields.items():
+                            if isinstance(k, int): walk(x, pth + (f'[{k}]' if v.ty.strip().startswith('[') else f'.{k}'))
+                walk(sv, '')
+                under = lambda p, q: p == q or p.startswith(q + '.') or p.startswith(q + '[')
+                def changed(prefixes):
+                    out = [z3.BoolVal(True) for q in prefixes for rp in replaced if under(rp, q) or under(q, rp)]
+                    for p, cur in final.items():
+                        if not any(under(p, q) for q in prefixes): continue
+                        init = z3.Int(b + p)
+                        if cur.eq(init): continue
+                        out.append(cur != init)
+                    if not out: return None
+                    c = z3.Or(out)
+                    s_ = ob._solver(eng, r, [okc, c], 20000); ob.queries += 1
+                    return c if s_.check() != z3.unsat else None
+                em_p = f'.{BANK_EMODE}'; cfg_p = f'.{BANK_CFG}'
+                emc_p = em_p + f'.{STRUCTS["EmodeSettings"].index("emode_config")}'
+                ch_em = changed([emc_p])
+                ch_lw = changed([f'{cfg_p}.{i}' for i in LW_IDX])
+                ch_w = changed([f'{cfg_p}.{i}' for i in W_IDX])
+                ch_curve = changed([f'{cfg_p}.{CFG_IRC}'])
+                def need(kind, relevant, what, cond):
+                    alts = []
+                    for e in [x for x in E if x[0] == kind]:
+                        if kind == 'val_emode':
+                            en, cn, es, cs, d = e[1], e[2], e[3], e[4], e[5]
+                            fin_em = sv.fields.get(BANK_EMODE); fin_cfg = sv.fields.get(BANK_CFG)
+                            if not (en == (fin_em.name if isinstance(fin_em, StructV) else b + em_p) and cn == (fin_cfg.name if isinstance(fin_cfg, StructV) else b + cfg_p)): continue
+                            same = [es[p[len(em_p):]] == final[p] for p in final if under(p, emc_p) and p[len(em_p):] in es and p[len(em_p):] != '__ids'] + \
+                                   [cs[p[len(cfg_p):]] == final[p] for p in final if any(under(p, f'{cfg_p}.{i}') for i in LW_IDX) and p[len(cfg_p):] in cs]
+                            missing = [p for p in final if under(p, emc_p) and p[len(em_p):] not in es and not final[p].eq(z3.Int(b + p))]
+                            fin_ids = {}; struct_ids(eng.get_path(sv, (('f', BANK_EMODE, 'EmodeSettings'),)), '', fin_ids)
+                            for rp in replaced:
+                                if under(rp, em_p) and es.get('__ids', {}).get(rp[len(em_p):]) != fin_ids.get(rp[len(em_p):]): missing.append(rp)
+                        else:
+                            cn, cs, d = e[1], e[2], e[3]
+                            pre = cfg_p if kind == 'val_cfg' else f'{cfg_p}.{CFG_IRC}'
+                            if cn != b + pre: continue
+                            same = [cs[p[len(pre):]] == final[p] for p in final if any(under(p, q) for q in relevant) and p[len(pre):] in cs]
+                            missing = [p for p in final if any(under(p, q) for q in relevant) and p[len(pre):] not in cs and not final[p].eq(z3.Int(b + p))]
+                        if missing: continue
+                        alts.append(z3.And([zint(d) == 0] + same))
+                    if alts:
+                        ob.prove(eng, r, [okc, cond], z3.Or(alts), f'{what}: if they change, a validator call saw the final values and its error is propagated', role='unvalidated-write:' + what)
+                        return
+                    ob.sat += 1; ob.queries += 1
+                    ob.cex.append({'ob': ob.oid, 'label': f'{what} of {b} can change on an accepting path without a {kind} call on that bank covering the final values', 'role': 'unvalidated-write:' + what,
+                                   'model': {'handler': name, 'bank_object': b, 'replaced_wholesale': [pretty('Bank', x) for x in replaced]}, 'replay': 'clone_emode' if name == 'clone_emode' else None})
+                if ch_em is not None or ch_lw is not None:
+                    need('val_emode', [], 'e-mode entries vs liability weights', z3.Or([c for c in (ch_em, ch_lw) if c is not None]))
+                if ch_w is not None: need('val_cfg', [f'{cfg_p}.{i}' for i in W_IDX], 'bank weights / risk tier / oracle age', ch_w)
+                if ch_curve is not None:
+                    has_cfg = any(e[0] == 'val_cfg' and e[1] == b + cfg_p for e in E)
+                    if has_cfg: need('val_cfg', [f'{cfg_p}.{CFG_IRC}'], 'interest curve (through BankConfig::validate)', ch_curve)
+                    else: need('val_curve', [f'{cfg_p}.{CFG_IRC}'], 'interest curve', ch_curve)
+        ob.need_witness()
+        return [ob]
+    return task
+
+
+def replay_clone_emode(model, spec=None):
+    W_ = W
+    src = {'config.liability_weight_init': str(W_ + W_ // 2), 'config.liability_weight_maint': str(W_ + W_ // 4), 'emode.entries': [[7, str(W_ * 95 // 100), str(W_ * 98 // 100)]]}
+    dst = {'config.liability_weight_init': str(W_), 'config.liability_weight_maint': str(W_)}
+    accts = [{'key': 101, 'owner': 'program', 'kind': 'group', 'fields': {'admin': 1}}, {'key': 102, 'signer': True},
+             {'key': 103, 'owner': 'program', 'kind': 'bank', 'fields': {'group': 0, 'set': src}}, {'key': 104, 'owner': 'program', 'writable': True, 'kind': 'bank', 'fields': {'group': 0, 'set': dst}}]
+    out = native([{'fn': 'entry', 'ix': 'lending_pool_clone_emode', 'args_hex': '', 'accounts': accts}])[0]
+    if not out.get('ok'): return False, {'native': {'ok': False, 'err': out.get('err')}, 'verdict': 'instruction rejected natively (validation present)'}
+    d = [a for a in out['accounts'] if a['index'] == 3][0]
+    viol = d['emode_entries'] > 0 and not d['emode_valid_for_this_bank']
+    return viol, {'destination_emode_entries': d['emode_entries'], 'destination_passes_its_own_validator': d['emode_valid_for_this_bank'],
+                  'verdict': 'clone_emode succeeded and left the destination bank with e-mode entries that validate_entries_with_liability_weights rejects for that bank' if viol else 'not reproduced'}
+
+
+REPLAYERS = {'clone_emode': replay_clone_emode}
+_t13 = tasks
+def tasks(tier):
+    return _t13(tier) + [('write_path:' + n, mk_write_path(n)) for n in WRITE_PATHS]
